@@ -58,7 +58,16 @@ def fam_rotation(ctx, rng):
     E = s * np.sin(p) + noise * np.cos(p)
     Z = rng.standard_normal(n) * sc
     ns0, ew0 = deployed(N, E, theta)
-    rec = gen.make_recording(ns0, ew0, Z, 0.01, degrees_from_north=theta)
+    meta = None
+    if rng.random() < 0.3:
+        # the descriptive metadata of a campaign is handed on from an earlier recording of the same site (another sensor
+        # orientation): the orientation of THIS recording is the constructor's argument
+        other = gen.make_recording(ns0[:8].copy(), ew0[:8].copy(), Z[:8].copy(), 0.01, degrees_from_north=angle(rng))
+        if rng.random() < 0.5:
+            other.orient_sensor_to(angle(rng))
+        meta = other.meta if rng.random() < 0.5 else dict(other.meta, site="campaign")
+        ctx.count("recordings_built_with_metadata_of_another_recording")
+    rec = gen.make_recording(ns0, ew0, Z, 0.01, degrees_from_north=theta, meta=meta)
     scale = float(np.max(np.abs(np.concatenate([N, E])))) + 1e-300
     targets = [0.0] + [angle(rng) for _ in range(int(rng.integers(0, 6)))]
     rng.shuffle(targets)
